@@ -1251,7 +1251,7 @@ def main(argv):
                           "config_parser.Parse crashes (%s) on this text instead of answering with sections or an error (%d texts of this class in this run)" % (cls, len(members)),
                           matchers=["C17/parse-panic/" + cls])
         if by.get("spec"):
-            i = by["spec"][0]
+            i = min(by["spec"], key=lambda j: len(pcases[j].get("text", "")))
             c = pcases[i]
             out.violation("parse_wrong", {"op": "parse", "text": c.get("text"), "stream": c["kind"], "codes": all_err[i],
                                           "how": "Parse(text) differs from the configuration the text spells (or rejects a well-formed text)"},
